@@ -339,7 +339,7 @@ Proof.
 Qed.
 
 Lemma Good_event x ev :
-  match ev with CClosed | CReg _ => True | _ => False end -> wf x -> Good x [ev] x.
+  match ev with CClosed | CReg _ | CUsable _ => True | _ => False end -> wf x -> Good x [ev] x.
 Proof.
   intros E W. destruct ev; try contradiction;
     (constructor; [exact W|lia|cbn; constructor|cbn; constructor|intros r; cbn; reflexivity|reflexivity|
@@ -477,7 +477,7 @@ Proof.
   intros W H. unfold aux_op in H.
   destruct (c_closing (cs x) || negb (c_fd (cs x)) || pending (cs x)); [inversion H; subst; apply Good_refl, W|].
   destruct o; try (inversion H; subst; apply Good_refl, W);
-    try (destruct (cwr x); inversion H; subst; [apply Good_same; cbn; auto|apply Good_refl, W]).
+    try (destruct (wr_is (cwr x)); inversion H; subst; [apply Good_same; cbn; auto|apply Good_refl, W]).
   inversion H; subst. apply Good_same; cbn; auto.
 Qed.
 
@@ -487,10 +487,10 @@ Proof.
   destruct o; try (eapply aux_op_good; eassumption); try (eapply cclose_good; eassumption);
     try (inversion H; subst; apply Good_refl, W);
     (destruct (c_closing (cs x)) eqn:C; [inversion H; subst; apply Good_refl, W|]);
-    (destruct (c_tcp (cs x)) eqn:T; try (inversion H; subst; apply Good_refl, W)).
+    (destruct (c_tcp (cs x)) eqn:T; cbn [andb] in H; try (inversion H; subst; apply Good_refl, W)).
   - eapply tcp_connect_good; eauto.
-  - eapply bind_busy_good; eauto.
-  - eapply bind_busy_good; eauto.
+  - destruct (negb (pending (cs x))); [eapply bind_busy_good; eauto|inversion H; subst; apply Good_refl, W].
+  - destruct (negb (pending (cs x))); [eapply bind_busy_good; eauto|inversion H; subst; apply Good_refl, W].
   - eapply pipe_connect_good; eauto.
   - eapply pipe_connect2_good; eauto.
 Qed.
@@ -541,7 +541,9 @@ Proof.
       else let s2 := mkC (c_tcp s1) (c_fd s1) None (c_delayed s1) false (c_fed s1) (c_closing s1) (c_closed s1) in
            let (x1, e1) := run_cb (mkCs s2 o' (nreq x) (ccbn x) [] (cpfix x) (pred (creg x)) (cwr x)) beh in
            let (x2, e2) := reject (cchain x) UV_EALREADY SrcRejected x1 beh in
-           (x2, CCb r error src :: e1 ++ e2)) = (x', e) ->
+           (x2, CCb r error src ::
+                (if error =? 0 then [CUsable (match cwr x with Some false => false | _ => true end)] else [])
+                ++ e1 ++ e2)) = (x', e) ->
      Good x e x').
   { intros error src s1 o' T1 T2 T3 T4 St H'.
     destruct (error =? UV_EINPROGRESS).
@@ -551,13 +553,23 @@ Proof.
                                   (c_closing s1) (c_closed s1)) o' (nreq x) (ccbn x) [] (cpfix x) (pred (creg x)) (cwr x)) beh)
         as [x1 e1] eqn:Er.
       destruct (reject (cchain x) UV_EALREADY SrcRejected x1 beh) as [x2 e2] eqn:Ej.
-      inversion H'; subst. change (CCb r error src :: e1 ++ e2) with ([CCb r error src] ++ e1 ++ e2).
+      inversion H'; subst.
+      match goal with |- Good x (CCb r error src :: ?fl ++ e1 ++ e2) x' =>
+        change (CCb r error src :: fl ++ e1 ++ e2) with ([CCb r error src] ++ fl ++ e1 ++ e2); set (FL := fl) end.
       assert (G1 : GoodD [] (cchain x) x [CCb r error src]
                  (mkCs (mkC (c_tcp s1) (c_fd s1) None (c_delayed s1) false (c_fed s1)
                             (c_closing s1) (c_closed s1)) o' (nreq x) (ccbn x) [] (cpfix x) (pred (creg x)) (cwr x))).
       { apply Good_cb; cbn; auto; try congruence.
         destruct W as (_ & W2 & _). rewrite T4, T3. intros Hd. apply (W2 Hd). }
       eapply Good_trans; [exact G1|].
+      assert (GF : GoodD (cchain x) (cchain x) (mkCs (mkC (c_tcp s1) (c_fd s1) None (c_delayed s1) false (c_fed s1)
+                            (c_closing s1) (c_closed s1)) o' (nreq x) (ccbn x) [] (cpfix x) (pred (creg x)) (cwr x)) FL
+                         (mkCs (mkC (c_tcp s1) (c_fd s1) None (c_delayed s1) false (c_fed s1)
+                            (c_closing s1) (c_closed s1)) o' (nreq x) (ccbn x) [] (cpfix x) (pred (creg x)) (cwr x))).
+      { subst FL. destruct (error =? 0).
+        - apply (Good_frame (cchain x) [] []). apply Good_event; [exact I|apply (g_wf _ _ _ _ _ G1)].
+        - apply (Good_frame (cchain x) [] []). apply Good_refl, (g_wf _ _ _ _ _ G1). }
+      eapply Good_trans; [exact GF|].
       pose proof (run_cb_good _ _ _ _ (g_wf _ _ _ _ _ G1) Er) as G2.
       eapply Good_trans; [apply (Good_frame (cchain x) _ _ _ _ _ G2)|]. cbn [app].
       eapply reject_good; [apply (g_wf _ _ _ _ _ G2)| |exact Ej]. intros q. reflexivity. }
@@ -897,4 +909,344 @@ Proof.
       apply in_app_or in Hin. destruct Hin as [Hin|[Hin|[]]].
       * unfold lost_of in Hin. destruct (c_req (cs x)); [destruct Hin as [Hin|[]]; discriminate|contradiction].
       * inversion Hin; subst. exfalso; apply Hc; reflexivity.
+Qed.
+
+(* ---- a stream whose connect completes with status 0 has been opened ---- *)
+(* invariant: a pending request without a delayed error went through a connect(2) that
+   was performed, and that path set READABLE | WRITABLE (maybe_new_socket for tcp;
+   uv__stream_open for pipes, since ff67af1 also when the socket came from a failed attempt).
+   Side condition on the oracle: socket(2) never fails with EINPROGRESS (a delayed
+   EINPROGRESS would be swallowed by uv__stream_connect). *)
+Definition noinp (v : Z) : Prop := v <> UV_EINPROGRESS.
+Definition I5 (x : cst) : Prop :=
+  (c_req (cs x) <> None -> c_delayed (cs x) = 0 -> cwr x <> Some false) /\
+  noinp (c_delayed (cs x)) /\ Forall noinp (o_sock (co x)).
+Definition flag_ok (e : cev) : Prop := match e with CUsable b => b = true | _ => True end.
+Definition P5 (x' : cst) (e : list cev) : Prop := I5 x' /\ Forall flag_ok e.
+
+Lemma wr_on_ok w : wr_on w <> Some false.
+Proof. destruct w; cbn; discriminate. Qed.
+
+Lemma next_z_noinp l a r : Forall noinp l -> next_z l = (a, r) -> noinp a /\ Forall noinp r.
+Proof.
+  intros F H. destruct l; cbn in H; inversion H; subst.
+  - split; [unfold noinp, UV_EINPROGRESS; lia|constructor].
+  - inversion F; subst. split; assumption.
+Qed.
+
+Lemma P5_app x1 e1 x2 e2 : P5 x1 e1 -> P5 x2 e2 -> P5 x2 (e1 ++ e2).
+Proof. intros (_ & F1) (I & F2). split; [exact I|apply Forall_app; split; assumption]. Qed.
+
+Lemma I5_same x x' :
+  I5 x -> c_req (cs x') = c_req (cs x) -> c_delayed (cs x') = c_delayed (cs x) -> cwr x' = cwr x ->
+  o_sock (co x') = o_sock (co x) -> I5 x'.
+Proof. unfold I5. intros I R D W O. rewrite R, D, W, O. exact I. Qed.
+
+Lemma P5_same x : I5 x -> P5 x [].
+Proof. intros I. split; [exact I|constructor]. Qed.
+
+Lemma tcp_connect_I5 x x' e : I5 x -> tcp_connect x = (x', e) -> P5 x' e.
+Proof.
+  intros (I1 & I2 & I3) H. unfold tcp_connect in H. destruct (c_req (cs x)) eqn:R.
+  { inversion H; subst. split; [|repeat constructor]. unfold I5; cbn. rewrite R. auto. }
+  destruct (Z.eqb_spec (c_delayed (cs x)) 0) as [D|D]; cbn [negb] in H.
+  2: { inversion H; subst. split; [|repeat constructor]. unfold I5; cbn. repeat split; auto; try (intros _ D0; contradiction). }
+  assert (S : exists serr so', (if c_fd (cs x) then (0, o_sock (co x)) else next_z (o_sock (co x))) = (serr, so')
+                              /\ Forall noinp so').
+  { destruct (c_fd (cs x)); [eexists _, _; split; [reflexivity|exact I3]|].
+    destruct (next_z (o_sock (co x))) as [a r] eqn:E. destruct (next_z_noinp _ _ _ I3 E). eexists _, _; split; [reflexivity|assumption]. }
+  destruct S as (serr & so' & Es & Fs). rewrite Es in H.
+  destruct (negb (serr =? 0)).
+  { inversion H; subst. split; [|repeat constructor]. unfold I5; cbn. rewrite R. repeat split; auto; try (intros C; contradiction). }
+  destruct (connect_loop (o_conn (co x))) as [a cn'].
+  destruct ((a =? 0) || (a =? UV_EINPROGRESS)).
+  { inversion H; subst. split; [|repeat constructor]. unfold I5; cbn. repeat split; auto; try (intros; apply wr_on_ok). }
+  destruct (a =? UV_ECONNREFUSED); inversion H; subst; (split; [|repeat constructor]); unfold I5; cbn.
+  - repeat split; auto; [intros _ C; discriminate|unfold noinp; discriminate].
+  - try rewrite R. repeat split; auto; try (intros C; contradiction).
+Qed.
+
+Lemma bind_busy_I5 b x x' e : I5 x -> c_req (cs x) = None -> bind_busy b x = (x', e) -> P5 x' e.
+Proof.
+  intros (I1 & I2 & I3) R H. unfold bind_busy in H.
+  assert (S : exists serr so', (if c_fd (cs x) then (0, o_sock (co x)) else next_z (o_sock (co x))) = (serr, so')
+                              /\ Forall noinp so').
+  { destruct (c_fd (cs x)); [eexists _, _; split; [reflexivity|exact I3]|].
+    destruct (next_z (o_sock (co x))) as [a r] eqn:E. destruct (next_z_noinp _ _ _ I3 E). eexists _, _; split; [reflexivity|assumption]. }
+  destruct S as (serr & so' & Es & Fs). rewrite Es in H.
+  destruct (negb (serr =? 0)); inversion H; subst; (split; [|repeat constructor]); unfold I5; cbn; rewrite R;
+    repeat split; auto; try (intros C; contradiction).
+  destruct b; unfold noinp; discriminate.
+Qed.
+
+Lemma pipe_body_I5 x flags n z x' e res :
+  I5 x -> pipe_connect2_body x flags n z = (x', e, res) ->
+  Forall flag_ok e /\ match res with Some _ => x' = x | None => I5 x' end.
+Proof.
+  intros (I1 & I2 & I3) H. unfold pipe_connect2_body in H.
+  destruct (negb (Z.land flags (Z.lnot 1) =? 0)); [inversion H; subst; split; [constructor|reflexivity]|].
+  destruct (Nat.eqb n 0); [inversion H; subst; split; [constructor|reflexivity]|].
+  destruct z; [inversion H; subst; split; [constructor|reflexivity]|].
+  destruct (negb (Z.land flags 1 =? 0) && Nat.ltb 108 n); [inversion H; subst; split; [constructor|reflexivity]|].
+  assert (S : exists serr so', (if negb (c_fd (cs x)) then next_z (o_sock (co x)) else (0, o_sock (co x))) = (serr, so')
+                              /\ noinp serr /\ Forall noinp so').
+  { destruct (negb (c_fd (cs x))).
+    - destruct (next_z (o_sock (co x))) as [a r] eqn:E. destruct (next_z_noinp _ _ _ I3 E).
+      eexists _, _; split; [reflexivity|split; assumption].
+    - eexists _, _; split; [reflexivity|split; [unfold noinp; discriminate|exact I3]]. }
+  destruct S as (serr & so' & Es & Ns & Fs). rewrite Es in H.
+  unfold pipe_out in H.
+  destruct (Z.ltb_spec serr 0).
+  { inversion H; subst. split; [destruct (c_req (cs x)); repeat constructor|].
+    unfold I5; cbn. repeat split; auto; try (intros _ D; lia). }
+  destruct (connect_loop (o_conn (co x))) as [a cn'].
+  destruct ((a =? 0) || (a =? UV_EINPROGRESS)) eqn:Ea; inversion H; subst.
+  - split; [destruct (c_req (cs x)); repeat constructor|]. unfold I5; cbn. repeat split; auto.
+    + intros; apply wr_on_ok.
+    + unfold noinp; discriminate.
+  - split; [destruct (c_req (cs x)); repeat constructor|]. unfold I5; cbn. repeat split; auto.
+    + intros _ D. subst a. discriminate Ea.
+    + unfold noinp. intros D. subst a. rewrite orb_true_r in Ea. discriminate.
+Qed.
+
+Lemma pipe_connect2_I5 x flags n z x' e : I5 x -> pipe_connect2 x flags n z = (x', e) -> P5 x' e.
+Proof.
+  intros I H. unfold pipe_connect2 in H. destruct (cpfix x && pending (cs x)).
+  { inversion H; subst. split; [eapply I5_same; eauto|repeat constructor]. }
+  destruct (pipe_connect2_body x flags n z) as [[x1 e1] res] eqn:B.
+  destruct (pipe_body_I5 _ _ _ _ _ _ _ I B) as (F & R).
+  destruct res; inversion H; subst; (split; [|apply Forall_app; split; [exact F|repeat constructor]]).
+  - eapply I5_same; eauto.
+  - eapply I5_same; [exact R| | | |]; reflexivity.
+Qed.
+
+Lemma pipe_connect_I5 x n x' e : I5 x -> pipe_connect x n = (x', e) -> P5 x' e.
+Proof.
+  intros I H. unfold pipe_connect in H. destruct (cpfix x && pending (cs x)).
+  { inversion H; subst. split; [eapply I5_same; eauto|repeat constructor]. }
+  destruct (pipe_connect2_body x 0 n false) as [[x1 e1] res] eqn:B.
+  destruct (pipe_body_I5 _ _ _ _ _ _ _ I B) as (F & R).
+  destruct res as [err|].
+  - subst x1. unfold pipe_out in H. inversion H; subst.
+    split; [|apply Forall_app; split; [exact F|destruct (c_req (cs x)); repeat constructor]].
+    (* the validation error (UV_EINVAL) becomes the delayed error *)
+    assert (Herr : err = UV_EINVAL_).
+    { unfold pipe_connect2_body in B. cbn in B. destruct (Nat.eqb n 0); [inversion B; reflexivity|].
+      cbn in B. destruct (if negb (c_fd (cs x)) then next_z (o_sock (co x)) else (0, o_sock (co x))) as [serr so'].
+      unfold pipe_out in B. destruct (serr <? 0); [inversion B|]. destruct (connect_loop (o_conn (co x))) as [a cn'].
+      destruct ((a =? 0) || (a =? UV_EINPROGRESS)); inversion B. }
+    destruct I as (I1 & I2 & I3). subst err. unfold I5; cbn. repeat split; auto.
+    + intros _ D. discriminate.
+    + unfold noinp; discriminate.
+  - inversion H; subst. split; [eapply I5_same; [exact R| | | |]; reflexivity|].
+    apply Forall_app; split; [exact F|repeat constructor].
+Qed.
+
+Lemma aux_op_I5 x o x' e : I5 x -> aux_op x o = (x', e) -> P5 x' e.
+Proof.
+  intros I H. unfold aux_op in H.
+  destruct (c_closing (cs x) || negb (c_fd (cs x))); cbn [orb] in H; [inversion H; subst; apply P5_same, I|].
+  destruct (pending (cs x)) eqn:Pn; [inversion H; subst; apply P5_same, I|].
+  assert (R : c_req (cs x) = None) by (unfold pending in Pn; destruct (c_req (cs x)); [discriminate|reflexivity]).
+  destruct I as (I1 & I2 & I3).
+  assert (New : forall s w, c_req s = None -> c_delayed s = c_delayed (cs x) ->
+            I5 (mkCs s (co x) (nreq x) (ccbn x) (cchain x) (cpfix x) (creg x) w)).
+  { intros s w Rs Ds. unfold I5; cbn. rewrite Rs, Ds. repeat split; auto; try (intros C; contradiction). }
+  destruct o; try (inversion H; subst; apply P5_same; repeat split; assumption);
+    try (destruct (wr_is (cwr x)); inversion H; subst;
+         [split; [apply New; [exact R|reflexivity]|constructor]|apply P5_same; repeat split; assumption]).
+  inversion H; subst. split; [apply New; [exact R|reflexivity]|constructor].
+Qed.
+
+Lemma cexec_simple_I5 x o x' e : I5 x -> cexec_simple x o = (x', e) -> P5 x' e.
+Proof.
+  intros I H. unfold cexec_simple in H.
+  assert (Same : (x, @nil cev) = (x', e) -> P5 x' e) by (intros E; inversion E; subst; apply P5_same, I).
+  assert (Pn : pending (cs x) = false -> c_req (cs x) = None).
+  { unfold pending. destruct (c_req (cs x)); [discriminate|reflexivity]. }
+  destruct o.
+  - destruct (c_closing (cs x)); [apply Same, H|]. destruct (c_tcp (cs x)); [|apply Same, H].
+    eapply tcp_connect_I5; eauto.
+  - destruct (c_closing (cs x)); [apply Same, H|].
+    destruct (c_tcp (cs x)); cbn [andb] in H; [|apply Same, H].
+    destruct (pending (cs x)) eqn:E; cbn [negb] in H; [apply Same, H|]. eapply bind_busy_I5; eauto.
+  - destruct (c_closing (cs x)); [apply Same, H|].
+    destruct (c_tcp (cs x)); cbn [andb] in H; [|apply Same, H].
+    destruct (pending (cs x)) eqn:E; cbn [negb] in H; [apply Same, H|]. eapply bind_busy_I5; eauto.
+  - destruct (c_closing (cs x)); [apply Same, H|]. destruct (c_tcp (cs x)); [apply Same, H|].
+    eapply pipe_connect_I5; eauto.
+  - destruct (c_closing (cs x)); [apply Same, H|]. destruct (c_tcp (cs x)); [apply Same, H|].
+    eapply pipe_connect2_I5; eauto.
+  - eapply aux_op_I5; eauto.
+  - eapply aux_op_I5; eauto.
+  - eapply aux_op_I5; eauto.
+  - unfold cclose in H. destruct (c_closing (cs x)); inversion H; subst; [apply P5_same, I|].
+    split; [|constructor]. eapply I5_same; [exact I| | | |]; reflexivity.
+  - apply Same, H.
+Qed.
+
+Lemma cexec_cb_I5 os : forall x x' e, I5 x -> cexec_cb x os = (x', e) -> P5 x' e.
+Proof.
+  induction os as [|o r IH]; intros x x' e I H; cbn [cexec_cb] in H.
+  - inversion H; subst. apply P5_same, I.
+  - destruct (cexec_simple x o) as [x1 e1] eqn:E1. destruct (cexec_cb x1 r) as [x2 e2] eqn:E2.
+    inversion H; subst. pose proof (cexec_simple_I5 _ _ _ _ I E1) as P1.
+    pose proof (IH _ _ _ (proj1 P1) E2) as P2.
+    apply (P5_app x1); [exact P1|]. split; [apply P2|constructor; [exact Logic.I|apply P2]].
+Qed.
+
+Lemma run_cb_I5 x beh x' e : I5 x -> run_cb x beh = (x', e) -> P5 x' e.
+Proof. intros I H. unfold run_cb in H. eapply cexec_cb_I5; [|exact H]. exact I. Qed.
+
+Lemma reject_I5 beh st src ch : forall x x' e, I5 x -> reject ch st src x beh = (x', e) -> P5 x' e.
+Proof.
+  induction ch as [|q t IH]; intros x x' e I H; cbn [reject] in H.
+  - inversion H; subst. apply P5_same, I.
+  - match type of H with (let (_, _) := run_cb ?y beh in _) = _ =>
+      assert (Iy : I5 y) by exact I; destruct (run_cb y beh) as [x1 e1] eqn:E1 end.
+    destruct (reject t st src x1 beh) as [x2 e2] eqn:E2. inversion H; subst.
+    pose proof (run_cb_I5 _ _ _ _ Iy E1) as P1.
+    pose proof (IH _ _ _ (proj1 P1) E2) as P2.
+    split; [apply P2|]. constructor; [exact Logic.I|]. apply Forall_app; split; [apply P1|apply P2].
+Qed.
+
+Lemma stream_connect_I5 x beh x' e : I5 x -> stream_connect x beh = (x', e) -> P5 x' e.
+Proof.
+  intros I H. unfold stream_connect in H. destruct (c_req (cs x)) as [r|] eqn:R.
+  2: { inversion H; subst. apply P5_same, I. }
+  destruct I as (I1 & I2 & I3).
+  assert (Fin : forall (error : Z) (src : csrc) s1 o',
+     c_req s1 = None -> noinp (c_delayed s1) -> Forall noinp (o_sock o') ->
+     (error = 0 -> cwr x <> Some false) ->
+     (let (x1, e1) := run_cb (mkCs s1 o' (nreq x) (ccbn x) [] (cpfix x) (pred (creg x)) (cwr x)) beh in
+      let (x2, e2) := reject (cchain x) UV_EALREADY SrcRejected x1 beh in
+      (x2, CCb r error src ::
+           (if error =? 0 then [CUsable (match cwr x with Some false => false | _ => true end)] else [])
+           ++ e1 ++ e2)) = (x', e) -> P5 x' e).
+  { intros error src s1 o' Rs Ns Fs Hw H'.
+    match type of H' with (let (_, _) := run_cb ?y beh in _) = _ =>
+      assert (Iy : I5 y) by (unfold I5; cbn; rewrite Rs; repeat split; auto; intros C; contradiction);
+      destruct (run_cb y beh) as [x1 e1] eqn:E1 end.
+    destruct (reject (cchain x) UV_EALREADY SrcRejected x1 beh) as [x2 e2] eqn:E2. inversion H'; subst.
+    pose proof (run_cb_I5 _ _ _ _ Iy E1) as P1.
+    pose proof (reject_I5 _ _ _ _ _ _ _ (proj1 P1) E2) as P2.
+    split; [apply P2|]. constructor; [exact Logic.I|]. apply Forall_app. split.
+    - destruct (Z.eqb_spec error 0) as [E0|E0]; [|constructor]. constructor; [|constructor]. cbn.
+      specialize (Hw E0). destruct (cwr x) as [[|]|]; try reflexivity. contradiction.
+    - apply Forall_app; split; [apply P1|apply P2]. }
+  destruct (Z.eqb_spec (c_delayed (cs x)) 0) as [Ed|Ed]; cbn [negb] in H.
+  - destruct (next_z (o_so (co x))) as [er so'].
+    destruct (er =? UV_EINPROGRESS).
+    + inversion H; subst. split; [|constructor]. unfold I5; cbn. rewrite R. repeat split; auto.
+      intros _ _. apply I1; [rewrite R; discriminate|exact Ed].
+    + eapply Fin; [..|exact H]; cbn; auto. intros _. apply I1; [rewrite R; discriminate|exact Ed].
+  - destruct (Z.eqb_spec (c_delayed (cs x)) UV_EINPROGRESS) as [Ei|Ei]; [contradiction|].
+    eapply Fin; [..|exact H]; cbn; auto; try (unfold noinp; discriminate); try (intros E0; contradiction).
+Qed.
+
+Lemma stream_io_I5 x beh x' e : I5 x -> stream_io x beh = (x', e) -> P5 x' e.
+Proof.
+  intros I H. unfold stream_io in H. destruct (c_req (cs x)) eqn:R.
+  - eapply stream_connect_I5; eauto.
+  - inversion H; subst. split; [|constructor]. destruct I as (I1 & I2 & I3).
+    unfold I5; cbn. repeat split; auto; try (intros C; contradiction).
+Qed.
+
+Lemma unfeed_I5 x : I5 x -> I5 (unfeed x).
+Proof. intros I. eapply I5_same; [exact I| | | |]; reflexivity. Qed.
+
+Lemma drain_I5 beh n : forall x x' e, I5 x -> drain n x beh = (x', e) -> P5 x' e.
+Proof.
+  induction n as [|n IH]; intros x x' e I H; cbn [drain] in H.
+  - inversion H; subst. apply P5_same, I.
+  - destruct (c_fed (cs x)); [|inversion H; subst; apply P5_same, I].
+    destruct (stream_io (unfeed x) beh) as [x1 e1] eqn:E1.
+    destruct (drain n x1 beh) as [x2 e2] eqn:E2. inversion H; subst.
+    pose proof (stream_io_I5 _ _ _ _ (unfeed_I5 x I) E1) as P1.
+    apply (P5_app x1); [exact P1|]. eapply IH; [apply P1|exact E2].
+Qed.
+
+Lemma destroy_I5 x beh x' e : I5 x -> destroy x beh = (x', e) -> P5 x' e.
+Proof.
+  intros (I1 & I2 & I3) H. unfold destroy in H. destruct (c_req (cs x)) as [r|] eqn:R.
+  - match type of H with (let (_, _) := run_cb ?y beh in _) = _ =>
+      assert (Iy : I5 y) by (unfold I5; cbn; repeat split; auto; intros C; contradiction);
+      destruct (run_cb y beh) as [x1 e1] eqn:E1 end.
+    destruct (reject (cchain x) UV_ECANCELED SrcCancel x1 beh) as [x2 e2] eqn:E2. inversion H; subst.
+    pose proof (run_cb_I5 _ _ _ _ Iy E1) as P1.
+    pose proof (reject_I5 _ _ _ _ _ _ _ (proj1 P1) E2) as P2.
+    split; [apply P2|]. constructor; [exact Logic.I|].
+    apply Forall_app; split; [apply P1|]. apply Forall_app; split; [apply P2|repeat constructor].
+  - inversion H; subst. split; [|repeat constructor]. unfold I5; cbn. repeat split; auto; try (intros C; contradiction).
+Qed.
+
+Lemma run_iter_I5 x beh x' e : I5 x -> run_iter x beh = (x', e) -> P5 x' e.
+Proof.
+  intros I H. unfold run_iter in H.
+  destruct (next_b (o_ready (co x))) as [rdy rd'].
+  match type of H with (let (_, _) := run_pending ?y beh in _) = _ =>
+    assert (I0 : I5 y) by (eapply I5_same; [exact I| | | |]; reflexivity);
+    destruct (run_pending y beh) as [x1 e1] eqn:E1 end.
+  assert (P1 : P5 x1 e1).
+  { unfold run_pending in E1. destruct (c_fed (cs _)).
+    - eapply stream_io_I5; [apply unfeed_I5, I0|exact E1].
+    - inversion E1; subst. apply P5_same, I0. }
+  match type of H with (let (_, _) := ?t in _) = _ => destruct t as [x2 e2] eqn:E2 end.
+  assert (P2 : P5 x2 e2).
+  { destruct (c_pollout (cs x1) && rdy && negb (c_closing (cs x1))).
+    - eapply stream_io_I5; [apply P1|exact E2].
+    - inversion E2; subst. apply P5_same, P1. }
+  destruct (drain 8 x2 beh) as [x3 e3] eqn:E3.
+  pose proof (drain_I5 _ _ _ _ _ (proj1 P2) E3) as P3.
+  match type of H with (let (_, _) := ?t in _) = _ => destruct t as [x4 e4] eqn:E4 end.
+  assert (P4 : P5 x4 e4).
+  { destruct (c_closing (cs x3) && negb (c_closed (cs x3))).
+    - eapply destroy_I5; [apply P3|exact E4].
+    - inversion E4; subst. apply P5_same, P3. }
+  inversion H; subst. apply (P5_app x1); [exact P1|]. apply (P5_app x2); [exact P2|].
+  apply (P5_app x3); [exact P3|exact P4].
+Qed.
+
+Lemma crun_I5 beh os : forall x x' e, I5 x -> crun x os beh = (x', e) -> P5 x' e.
+Proof.
+  induction os as [|o r IH]; intros x x' e I H; cbn [crun] in H.
+  - inversion H; subst. apply P5_same, I.
+  - destruct (cstep x o beh) as [x1 e1] eqn:E1. destruct (crun x1 r beh) as [x2 e2] eqn:E2.
+    inversion H; subst.
+    assert (P1 : P5 x1 e1).
+    { destruct o; cbn [cstep] in E1; try (eapply cexec_simple_I5; eassumption). eapply run_iter_I5; eassumption. }
+    pose proof (IH _ _ _ (proj1 P1) E2) as P2.
+    apply (P5_app x1); [exact P1|]. split; [apply P2|constructor; [exact Logic.I|apply P2]].
+Qed.
+
+(* whenever a connect callback reports status 0 the stream has been opened (readable and
+   writable unless the script itself shut it down or started reading), for the first
+   attempt and for retries on the same handle alike *)
+Theorem connected_stream_usable pfix tcp o os beh :
+  Forall noinp (o_sock o) ->
+  ~ In (CUsable false) (snd (crun (cinit pfix tcp o) os beh)).
+Proof.
+  intros Fo. destruct (crun (cinit pfix tcp o) os beh) as [x tr] eqn:E.
+  assert (I0 : I5 (cinit pfix tcp o)).
+  { unfold I5; cbn. repeat split; auto; try (intros C; contradiction). unfold noinp; discriminate. }
+  destruct (crun_I5 _ _ _ _ _ I0 E) as (_ & F). cbn. intros Hin.
+  rewrite Forall_forall in F. specialize (F _ Hin). cbn in F. discriminate.
+Qed.
+
+(* ... and every status-0 callback is followed by that observation *)
+Lemma usable_observed x beh r e :
+  c_req (cs x) = Some r -> snd (stream_connect x beh) = CCb r 0 SrcSo :: e ->
+  exists b e', e = CUsable b :: e'.
+Proof.
+  intros R H. unfold stream_connect in H. rewrite R in H.
+  destruct (negb (c_delayed (cs x) =? 0)).
+  - destruct (c_delayed (cs x) =? UV_EINPROGRESS); [discriminate|].
+    match type of H with context [run_cb ?y beh] => destruct (run_cb y beh) as [x1 e1] end.
+    match type of H with context [reject ?c ?s ?k ?y beh] => destruct (reject c s k y beh) as [x2 e2] end.
+    cbn in H. inversion H.
+  - destruct (next_z (o_so (co x))) as [er so'].
+    destruct (er =? UV_EINPROGRESS); [discriminate|].
+    match type of H with context [run_cb ?y beh] => destruct (run_cb y beh) as [x1 e1] end.
+    match type of H with context [reject ?c ?s ?k ?y beh] => destruct (reject c s k y beh) as [x2 e2] end.
+    cbn in H. inversion H; subst. cbn. eexists _, _; reflexivity.
 Qed.
